@@ -11,6 +11,7 @@
 //	                                            acc|conn|nonce|revert|funds|other|closed|hdr|connsend
 //	sig <sighex>                                Signature.ToBigInt
 //	pk <marshalled G2 hex> [k]                  decodePubKey (k: the point is k·G2, checked against go-ethereum's bn256)
+//	race <n>                                    two callers on the real adaptor: B queues behind A, A's failures cancel all n endpoints
 package c19
 
 import (
@@ -21,6 +22,7 @@ import (
 	"hash/adler32"
 	"math/big"
 	"os"
+	"runtime"
 	"sort"
 	"strconv"
 	"strings"
@@ -720,6 +722,57 @@ func execPK(w []string) (res h.Result) {
 	return
 }
 
+// race <n>: the F8 situation through the public API.  Request A is being handled (endpoint 0 holds its
+// nonce lookup), request B passes the isConnecting check and queues; A then fails on every endpoint with a
+// nonce error, which cancels them all; B is handled with every endpoint context done.
+func execRace(w []string) (res h.Result) {
+	n := h.Atoi(w[1])
+	st, err := chaindouble.NewStack(n, 1, big.NewInt(1), 5000000, 1000000000, nil)
+	if err != nil {
+		res.Impl = "connect-failed"
+		res.Oracle = "harness-connect-failed: " + h.OneLine(err.Error())
+		return
+	}
+	defer st.Close()
+	hold := make(chan struct{})
+	for i, e := range st.RPC {
+		o := chaindouble.Outcome{Err: "nonce lookup failed: database closed"}
+		if i == 0 {
+			o.Hold = hold
+		}
+		e.Script("eth_getTransactionCount", o)
+		e.ResetCalls()
+		e.ResetRawTxs()
+	}
+	ra, rb := make(chan error, 1), make(chan error, 1)
+	go func() { ra <- st.Adaptor.RegisterNewNode() }()
+	st.RPC[0].WaitCall("eth_getTransactionCount", 1) // A is inside handleReq
+	go func() { rb <- st.Adaptor.RegisterNewNode() }()
+	buf := make([]byte, 1<<20)
+	for { // until both callers are inside waitForReply (B has passed isConnecting and waits for the queue)
+		k := runtime.Stack(buf, true)
+		if strings.Count(string(buf[:k]), "onchain.(*ethAdaptor).waitForReply") >= 2 {
+			break
+		}
+		runtime.Gosched()
+	}
+	close(hold)
+	ea, eb := <-ra, <-rb
+	sent := 0
+	for _, e := range st.RPC {
+		sent += len(e.RawTxs())
+	}
+	res.Impl = fmt.Sprintf("A=%s B=%s sent=%d", errKind(ea), errKind(eb), sent)
+	if eb == nil {
+		res.Oracle = "nil-error-nothing-sent: request queued behind the one that cancelled the last endpoint returned nil, no transaction was sent"
+	} else if ea == nil {
+		res.Oracle = "nil-error-without-accept"
+	}
+	res.Class = "race"
+	res.Nontrivial = true
+	return
+}
+
 func exec(line string) (res h.Result) {
 	silence()
 	w := strings.Fields(line)
@@ -732,6 +785,8 @@ func exec(line string) (res h.Result) {
 		return execSig(w)
 	case "pk":
 		return execPK(w)
+	case "race":
+		return execRace(w)
 	}
 	panic("bad case line")
 }
